@@ -102,6 +102,10 @@ def project(raw_events, scenario, bound=None):
 
     # request id -> invocation ordinal, from what was rendered (the ARN carries ":k<k>")
     reqk = {}
+    fe_mode = bool(opt.get("frontEnd"))
+    for ev in raw_events:
+        if ev.get("ev") == "InvokeCall" and ev.get("reqid"):
+            reqk.setdefault(ev["reqid"], ev["k"])      # front-end mode: the id is made by the front end
     for ev in raw_events:
         if ev.get("ev") == "NextRet" and ev.get("kind") == "INVOKE":
             m = re.search(r":k(\d+)$", ev.get("arn", "") or "")
@@ -134,7 +138,7 @@ def project(raw_events, scenario, bound=None):
         info = invinfo.get(k)
         if info is None:
             return "data-unknown-invocation"
-        if not (ev.get("arn", "") or "").endswith(":function:test_function:k%d" % k):
+        if not (ev.get("arn", "") or "").endswith(":function:test_function" if fe_mode else ":function:test_function:k%d" % k):
             return "data-bad-arn"
         try:
             dl = int(ev.get("deadlineMs") or 0)
